@@ -6,7 +6,7 @@ from gffutils.feature import Feature, feature_from_line
 from gv.model import grammar as G
 
 ID = "C08"
-RULE = ("part 'enc': every dialect dictionary (72) x every value string of length 1..L over an 18-symbol alphabet x 4 placements, "
+RULE = ("part 'enc': every dialect dictionary (72) x every value string of length 1..L over a 19-symbol alphabet x 4 placements, "
         "printed and re-parsed with that dialect; part 'total': every string of length <= N over the 9-symbol structural alphabet as "
         "the attribute column, parsed with inference and three supplied dialects; plus 15 long (25-66 character) strings of word runs and "
         "repeated structural characters, each parsed under a 20 s termination guard. Non-trivial = value contains a reserved/structural "
@@ -17,7 +17,7 @@ ASSUMPTIONS = [
     "'single line' means no LF/CR in the printed text (files are split on those)",
 ]
 
-ALPHA = ["a", " ", "\t", "\n", "\r", "%", ";", "=", "&", ",", '"', "\x00", "\x1f", "\x7f", "é", " ", "%41", "+"]
+ALPHA = ["a", " ", "\t", "\n", "\r", "%", ";", "=", "&", ",", '"', "\x00", "\x1f", "\x7f", "é", " ", "%41", "+", "\x85"]
 STRUCT = ["a", "=", ";", " ", '"', ",", "%", "2", "C"]
 
 
